@@ -25,7 +25,7 @@ ASSUMPTIONS = ['max_fragment_size >= distance between a read and its DS site (th
                'get_binned_counts applies its documented default filter (read 1, not duplicate, not qc-fail, DS present) without MAPQ / mp']
 MIN_NONTRIVIAL = {'quick': 150, 'thorough': 8000}
 REQUIRED_MONITORS = ['multibam:count_runs', 'pipeline:count_runs', 'ret:obtain_counts', 'ret:get_binned_counts', 'oracle:matrix_cells_compared', 'splits:compared', 'lib:non_proper_pairs',
-                     'lib:sites_on_job_boundary']
+                     'lib:sites_on_job_boundary', 'lib:reads_with_site_0']
 SHARD_TIMEOUT = {'quick': 900, 'thorough': 5400}
 
 
@@ -209,6 +209,10 @@ def run_case(case):
             off = r.randint(-D, D) if D else 0
             pos = min(max(site + off, 0), ln - rl - 1)
             plan.append((site, pos, False))
+        # the very first base of a contig is a site like any other: reads on it, and reads as far away from it as the margin allows
+        for _ in range(r.randint(1, 3)):
+            plan.append((0, r.choice([0, min(D, ln - rl - 1)]), False))
+            acc.count('lib:reads_with_site_0')
         if D >= 12:
             # around the end of a job's fetch window: a read that is fetched by the job although its site lies behind the window, directly
             # followed (in coordinate order) by a read whose site lies inside the job - read order and site order differ
